@@ -15,6 +15,36 @@ CHECKS = {
     note='Partial: in-place swap, packing buffer size, hash-table sizes, collective header I/O, intra-node aggregation, safe mode and the PNETCDF_HINTS tokenizer are exercised (differential between configurations), not modelled; OpenMPI/ROMIO hints not modelled. Trusted: Lean kernel + 3 axioms; harness/apirun.c; Spec/Dataset.lean as the configuration-free reference.',
     technique='Lean 4 proof (permutation invariance of disjoint writes; decision logic of alignment precedence) + differential execution between configurations against a configuration-free specification',
     design='§4 C10'),
+ 'C06': dict(
+    text='Proved for every process count, MOVE_UNIT, distance and length, every file length and both MPI read-at-EOF behaviours: move_file_block is a block copy (moveBlock_correct); fixed variables moved last-to-first and the record section moved whole or record by record from the last keep every byte of every existing variable for every number of records incl. 0 (moveFixed_preserves, moveRecords_preserves, enddefMove_preserves under LayoutOK); abort of a redefinition writes nothing and abort of a create removes the file. The real static move functions run on 1-8 ranks with a lowered MOVE_UNIT and are diffed byte for byte against the model; API histories (different record counts per rank in independent mode then redef, repeated redefinitions, alignment/minfree) re-read all old values.',
+    note='LayoutOK (what NC_begins must establish) is a hypothesis of enddefMove_preserves, evaluated on every real layout pair at run time rather than derived from a Layout model; statements are byte level; iterated redefinition by harness only. Trusted: Lean kernel + 3 axioms, MPI-IO read/write semantics (both EOF behaviours modelled), harness/c06_*.c.',
+    technique='Lean 4 proof (induction over copy rounds; layout hypotheses) + unit (real static functions, multi-rank) and API-level differential correspondence',
+    design='§4 C06'),
+ 'C16': dict(
+    text='Proved for every length and process count: per-rank shares partition each new variable exactly (shares_partition); every planned byte lies in a new fill-mode variable or its slot of an existing record and nowhere else (plan_targets_new_only, plan_avoids, nofill_no_segment); every element is covered and the file-view blocks are sorted and disjoint (plan_covers, plan_monotone); byte-level end result fill_effect; default fill bytes are the documented NC_FILL_* values. The real fillerup_aggregate / fill_var_rec are run for arbitrary (nprocs, rank) and their recorded file view and buffer diffed against the model; API streams with every fill setting, partial writes, redefinitions adding fixed and record variables on 1-4 ranks.',
+    note='Byte level; typed values through the API harness only. A _FillValue attribute alone does not enable filling at enddef in this code base (reported by inq_var_fill as no_fill=1) - outside the property as written. Trusted: Lean kernel + 3 axioms, harness/c16_*.c.',
+    technique='Lean 4 proof (arithmetic of shares, plan coverage/disjointness) + unit and API-level differential correspondence',
+    design='§4 C16'),
+ 'C15': dict(
+    text='Proved for every rank and API form: the transcribed check_start_count_stride accepts exactly the in-bounds requests and returns the documented code with the documented precedence (checkSCS_iff_exact, checkSCS_error_documented); every element of an accepted request lies inside the variable\'s own area / record slot (accepted_inside*), rejected and zero-length requests change nothing, accepted puts change only the target. The 64-bit wrap-around statement is refuted (F15 counterexample) and proved inside an explicit no-overflow envelope. The real static checker is run on ~2*10^5 tuples (all small tuples exhaustively) and an API stream compares the whole file image after every request with what the model allows.',
+    note='imap packing / buftype decoding not modelled (exercised); byte-level frame theorems are about row-major addressing, tied to ncmpio_filetype.c by whole-file image comparison and by C01. Single process. Trusted: Lean kernel + 3 axioms, harness/c15_scs.c.',
+    technique='Lean 4 proof (decision logic over Int, induction over dimensions) + exhaustive small-scope unit correspondence + file-image differential',
+    design='§4 C15'),
+ 'C18': dict(
+    text='Proved: def_dim accepts exactly the representable lengths; the division loop of check_vlen decides bytes <= vlen_max exactly without overflow; check_vlens/enddef accept exactly under the per-format size rules incl. the last-variable exceptions and the CDF-1 begin rule, else NC_EVARSIZE (accept_iff_rules); vsize header field saturation; element offset = begin + row-major index * size with no bound (large_offsets_correct). no_overflow is refuted for CDF-5 (sum of sizes beyond 2^63, genuine defect) and proved under the extra hypothesis. ~10^4 definitions around every threshold through the real library, sparse-file single elements and multi-row blocks on both sides of 2^31/2^32 verified with raw reads.',
+    note='Only the new-file path of NC_begins is modelled; subarray64 typemap not proved (covered by the sparse block stream). Trusted: Lean kernel + 3 axioms, harness/c18_size.c, harness/apirun.c, sparse-file support of the file system.',
+    technique='Lean 4 proof (decision logic, arithmetic) + differential correspondence around every size threshold + sparse-file placement checks',
+    design='§4 C18'),
+ 'C07': dict(
+    text='Proved for every hash function and table size >= 1: the name-table invariant (every id in exactly one bucket, the right one) is preserved by insert, delete-with-shift, replace, copy and populate; hash lookup = linear search; each metadata operation returns the sequential specification\'s result and commutes with the abstraction (per-op refinement, lifted by induction to whole programs over any number of files); data-mode changes are on disk when the call returns. copy_att of an extended-type attribute into a classic file is a genuine defect (counterexample + partial). Random adversarial histories (colliding names, UTF-8 NFC pairs, table sizes 1..256, all formats) compare every inquiry, the real bucket tables and the on-disk header.',
+    note='NFC normalisation and name legality are parameters (exercised against Python unicodedata), hash function a parameter (real Bernstein hash transcribed in the driver). Single process. Trusted: Lean kernel + 3 axioms, harness/c07_meta.c.',
+    technique='Lean 4 proof (invariant + refinement to association lists, arbitrary hash) + differential correspondence of every inquiry and the real bucket tables',
+    design='§4 C07'),
+ 'C17': dict(
+    text='PARTIAL (id table proved, resources measured). Proved: reachable id-table invariant, lowest-free id reuse, NC_MAX_NFILES files simultaneously, frame lemma files_independent, close frees the slot and cancels/reports pending requests; check_id = EBADID iff slot empty or out of range is refuted for the source as it is (F1: NULL dereference on a stale id) and proved for the repaired variant - the check detects which variant the tree follows by replaying the trigger. Measured, not proved: after the last close ncmpi_inq_malloc_size = 0 and a PMPI shim balances create/free of datatypes, communicators, infos, file handles, over directed and random lifecycle scripts with every probe that may crash in a forked child.',
+    note='Heap and MPI-object balance are measurements on executed scripts (labelled so in the evidence). Trusted: Lean kernel + 3 axioms, harness/c17_life.c (PMPI shim, fork isolation).',
+    technique='Lean 4 proof (invariant by induction over lifecycle operations; variant-parametric id check) + measured resource balance under fork isolation',
+    design='§4 C17'),
  'C09': dict(
     text='Every numeric conversion primitive of ncx.c (164 scalar primitives + 97 inlined byte-loop elements) is translated from the current source into Lean on every run and proved equal to the written-from-the-rules specification ConvSpec for ALL input values (integers by omega, floats over exact rationals); whole requests of any length are lifted by proved fold theorems (element independence, first error). Known deviations (NaN, 2^63/2^64, float Inf into double) are proved as counterexamples next to the partial theorems and replayed on the compiled C.',
     note='Trusted: Lean kernel + 3 standard axioms; translator tools/gen_ncx.py (clang AST -> Lean, fail-closed, every generated def also executed against the compiled C on ~10^5 boundary/random inputs); IEEE rounding of C casts is a model parameter; get_ix_/put_ix_ byte codecs and the dispatch in convert_swap.m4 are exercised by the harness, not proved.',
